@@ -752,6 +752,238 @@ def paired_run(fns):
 
 
 # =====================================================================================
+# lexers of the directive-free fragments (comments, string literal, escaped identifier): position-wise obligations
+# =====================================================================================
+def _step(e, b1, b2):
+    """ONE parser at a position whose next byte is b1 (there is one) and the byte after it b2 (None = end of input, UNK = not known).
+    -> (accepts, consumed): accepts True/False/None(not decided); consumed 1 | 2 | ('run', frozenset of bytes the run stops at) | None"""
+    if e[0] != 'call' or e[1][0] not in ('var', 'path'):
+        return None, None
+    f, a = e[1][1], e[2]
+    if f in ('map', 'recognize', 'complete', 'context', 'cut'):
+        return _step(a[-1] if f == 'context' else a[0], b1, b2)
+    if f == 'is_not':
+        l = _lit(a[0])
+        if l is None:
+            return None, None
+        return (b1 not in l), (('run', frozenset(l)) if b1 not in l else None)
+    if f == 'none_of' or f == 'one_of':
+        l = _lit(a[0])
+        if l is None:
+            return None, None
+        ok = (b1 not in l) if f == 'none_of' else (b1 in l)
+        return ok, (1 if ok else None)
+    if f == 'take':
+        if a and a[0][0] == 'lit' and re.match(r'1(usize)?$', a[0][1]):
+            return True, 1
+        return None, None
+    if f == 'anychar':
+        return True, 1
+    if f == 'tag':
+        l = _lit(a[0])
+        if l is None or len(l) == 0 or len(l) > 2:
+            return None, None
+        if len(l) == 1:
+            return (b1 == l[0]), (1 if b1 == l[0] else None)
+        if b1 != l[0]:
+            return False, None
+        if b2 == UNK:
+            return None, None
+        return (b2 == l[1]), (2 if b2 == l[1] else None)
+    if f == 'terminated' and len(a) == 2:
+        ok, n = _step(a[0], b1, b2)
+        if ok is not True:
+            return ok, None
+        if n != 1:
+            return None, None
+        la = _lookahead(a[1], None if b2 is None else b2) if b2 != UNK else None
+        if la is None:
+            return None, None
+        return la, (1 if la else None)
+    if f in ('pair', 'tuple'):
+        parts = a[0][1] if (f == 'tuple' and a and a[0][0] == 'tuple') else a
+        if len(parts) != 2:
+            return None, None
+        ok, n = _step(parts[0], b1, b2)
+        if ok is not True:
+            return ok, None
+        if n != 1:
+            return None, None
+        if b2 is None:
+            ok2, n2 = False, None          # every parser modelled here needs a character
+        elif b2 == UNK:
+            return None, None
+        else:
+            ok2, n2 = _step(parts[1], b2, UNK)
+        if ok2 is not True:
+            return ok2, None
+        if n2 != 1:
+            return None, None
+        return True, 2
+    if f == 'alt':
+        parts = a[0][1] if a and a[0][0] == 'tuple' else a
+        for p_ in parts:
+            ok, n = _step(p_, b1, b2)
+            if ok is None:
+                return None, None
+            if ok:
+                return True, n
+        return False, None
+    return None, None
+
+
+def _lexer_steps(f):
+    """the parsers of `let (s, X) = P(s)?;` statements of a lexer body, in order"""
+    out = []
+    for st in f.ast[1]:
+        if st[0] == 'let' and st[2][0] == 'try' and st[2][1][0] == 'call' and st[2][1][2] == [('var', 's')]:
+            out.append(st[2][1][1])
+    return out
+
+
+def _is_call(e, name):
+    return e[0] == 'call' and e[1] == ('var', name)
+
+
+def lexers_check(fns, table):
+    """C06 / C18: the lexers of the fragments that pass through unchanged accept exactly what the standard says and nothing shorter:
+    a block comment runs to the FIRST `*/`, a one-line comment to the end of its line, a string literal to the first quote that is not
+    escaped, an escaped identifier to the next white space.  Each body is `open  many0(alt((..)))  close`; the loop is memoryless, so
+    a statement about every position follows from one about every pair (next byte, byte after it / end of input): generated here."""
+    failures, undecided = [], []
+    checked = 0
+    decided = set()
+    ALL = list(range(256))
+
+    def classes():
+        for b1 in ALL:
+            for b2 in [None] + ALL:
+                yield b1, b2
+
+    def lit_is(e, s_):
+        return _is_call(e, 'tag') and _lit(e[2][0]) == s_
+
+    def report(f, what, props=('C06', 'C18')):
+        failures.append(fail(f.name, 'C06.lex.%s-%s' % (f.name, what[0]), what[1], list(props), f))
+
+    # ---- block comment
+    f = table.get('block_comment')
+    if f is None or not f.ast:
+        undecided.append('block_comment not found (anchor lost)')
+    else:
+        st = _lexer_steps(f)
+        checked += 1
+        if not (len(st) == 3 and lit_is(st[0], b'/*') and lit_is(st[2], b'*/') and st[1][0] == 'call' and st[1][1][0] == 'var' and st[1][1][1] in ('many0', 'many1')):
+            undecided.append('block_comment: not of the form tag("/*") many0(..) tag("*/")')
+        else:
+            body = st[1][2][0]
+            bad_stop = bad_go = bad_len = unk = None
+            for b1, b2 in classes():
+                ok, n = _step(body, b1, b2)
+                if ok is None:
+                    unk = (b1, b2)
+                    break
+                term = (b1 == ord('*') and b2 == ord('/'))
+                if term and ok:
+                    bad_stop = (b1, b2)
+                if not term and not ok and not (b1 == ord('*') and b2 is None):      # `*` as last byte: unterminated either way
+                    bad_go = bad_go or (b1, b2)
+                if ok and not (n == 1 or (isinstance(n, tuple) and ord('*') in n[1])):
+                    bad_len = bad_len or (b1, b2, n)
+            if unk:
+                undecided.append('block_comment: the body uses a construct outside the position-wise evaluator')
+            else:
+                decided.add('block_comment')
+                if st[1][1][1] == 'many1':
+                    report(f, ('accepts-the-empty-comment', 'the body must be allowed to be empty: `/**/` is a terminated comment (many1 rejects it)'))
+                if bad_stop:
+                    report(f, ('stops-at-the-first-terminator', 'the body consumes the `*` of a `*/`: the comment runs past its terminator'))
+                if bad_go:
+                    report(f, ('does-not-stop-before-the-terminator', 'the body stops at %r followed by %s although no `*/` starts there: a terminated comment is rejected' % (chr(bad_go[0]), 'end of input' if bad_go[1] is None else repr(chr(bad_go[1])))))
+                if bad_len:
+                    report(f, ('visits-every-position-a-terminator-can-start-at', 'at %r the body consumes %s: it can step over the `*` of a `*/`' % (chr(bad_len[0]), 'two bytes' if bad_len[2] == 2 else 'a run that does not stop at `*`')))
+    # ---- one-line comment
+    f = table.get('one_line_comment')
+    if f is None or not f.ast:
+        undecided.append('one_line_comment not found (anchor lost)')
+    else:
+        st = _lexer_steps(f)
+        checked += 1
+        if not (len(st) == 3 and lit_is(st[0], b'//') and _is_call(st[1], 'opt') and _is_call(st[2], 'opt')):
+            undecided.append('one_line_comment: not of the form tag("//") opt(..) opt(..)')
+        else:
+            body, nl = st[1][2][0], st[2][2][0]
+            if not (_is_call(body, 'is_not') and _lit(body[2][0]) is not None and _is_call(nl, 'tag') and _lit(nl[2][0]) is not None):
+                undecided.append('one_line_comment: text or line end written in a form the evaluator does not follow')
+            else:
+                decided.add('one_line_comment')
+                if set(_lit(body[2][0])) != {ord('\n')}:
+                    report(f, ('runs-to-the-end-of-the-line', 'the comment text stops at %r instead of exactly at the newline' % bytes(sorted(set(_lit(body[2][0]))))))
+                if _lit(nl[2][0]) != b'\n':
+                    report(f, ('takes-its-newline', 'the comment ends with %r instead of the newline' % _lit(nl[2][0])))
+    # ---- string literal
+    f = table.get('string_literal_impl')
+    if f is None or not f.ast:
+        undecided.append('string_literal_impl not found (anchor lost)')
+    else:
+        st = _lexer_steps(f)
+        checked += 1
+        if not (len(st) == 3 and lit_is(st[0], b'"') and lit_is(st[2], b'"') and st[1][0] == 'call' and st[1][1][0] == 'var' and st[1][1][1] in ('many0', 'many1')):
+            undecided.append('string_literal_impl: not of the form tag("\"") many0(..) tag("\"")')
+        else:
+            body = st[1][2][0]
+            bad_stop = bad_go = bad_len = unk = None
+            for b1, b2 in classes():
+                ok, n = _step(body, b1, b2)
+                if ok is None:
+                    unk = (b1, b2)
+                    break
+                if b1 == ord('"') and ok:
+                    bad_stop = (b1, b2)
+                if b1 != ord('"') and not ok and not (b1 == ord('\\') and b2 is None):
+                    bad_go = bad_go or (b1, b2)
+                if ok and b1 == ord('\\') and n != 2:
+                    bad_len = bad_len or (b1, b2, n)
+                if ok and b1 != ord('\\') and not (n == 1 or (isinstance(n, tuple) and ord('"') in n[1] and ord('\\') in n[1])):
+                    bad_len = bad_len or (b1, b2, n)
+            if unk:
+                undecided.append('string_literal_impl: the body uses a construct outside the position-wise evaluator')
+            else:
+                decided.add('string_literal_impl')
+                if st[1][1][1] == 'many1':
+                    report(f, ('accepts-the-empty-string', 'the body must be allowed to be empty: `""` is a terminated string literal'))
+                if bad_stop:
+                    report(f, ('stops-at-the-first-unescaped-quote', 'the body consumes an unescaped quote: the literal runs past its end'))
+                if bad_go:
+                    report(f, ('does-not-stop-before-the-closing-quote', 'the body stops at %r followed by %s: a terminated string literal is rejected' % (chr(bad_go[0]), 'end of input' if bad_go[1] is None else repr(chr(bad_go[1])))))
+                if bad_len:
+                    report(f, ('a-backslash-escapes-exactly-the-next-character', 'at %r the body consumes %s' % (chr(bad_len[0]), {1: 'one byte', 2: 'two bytes'}.get(bad_len[2], 'a run that can step over a quote or a backslash'))))
+    # ---- escaped identifier
+    f = table.get('escaped_identifier_impl')
+    if f is None or not f.ast:
+        undecided.append('escaped_identifier_impl not found (anchor lost)')
+    else:
+        st = _lexer_steps(f)
+        checked += 1
+        if not (len(st) == 2 and lit_is(st[0], b'\\') and _is_call(st[1], 'is_not') and _lit(st[1][2][0]) is not None):
+            undecided.append('escaped_identifier_impl: not of the form tag("\\") is_not(..)')
+        else:
+            decided.add('escaped_identifier_impl')
+            if set(_lit(st[1][2][0])) != set(b' \t\r\n'):
+                report(f, ('ends-at-white-space', 'the identifier stops at %r instead of at blank, tab, CR, LF' % bytes(sorted(set(_lit(st[1][2][0]))))))
+    # ---- comment = one_line_comment | block_comment
+    f = table.get('comment')
+    if f is not None and f.ast:
+        checked += 1
+        names = called_names(f.ast)
+        if {'one_line_comment', 'block_comment'} <= names:
+            decided.add('comment')
+        else:
+            undecided.append('comment: does not try one_line_comment and block_comment')
+    return dict(failures=failures, undecided=undecided, checked=checked, decided=decided)
+
+
+# =====================================================================================
 # assumed lexers: productions of the pp grammar whose BEHAVIOUR is an assumed contract of a preprocessor property
 # =====================================================================================
 _PP_COMMON = ['ws', 'symbol', 'keyword', 'paren', 'white_space', 'compiler_directive', 'compiler_directive_without_resetall', 'source_description',
@@ -787,7 +1019,7 @@ def lexer_fingerprint(f):
     return hashlib.sha1(src.encode('utf-8')).hexdigest()[:16]
 
 
-def assumed_check(fns, prop):
+def assumed_check(fns, prop, decided=()):
     """The preprocessor arms are verified against grammar invariants of the pp tree (which nodes exist, what their leaves cover).  WHAT
     TEXT each pp production accepts - where a macro body ends, what separates formal arguments, what counts as a comment - is behaviour
     of nom closures no contract here reaches: it is an ASSUMED contract, backed only by the suite, the bounded stand-ins and the golden
@@ -805,6 +1037,8 @@ def assumed_check(fns, prop):
     undecided = []
     checked = 0
     for n in names:
+        if n in decided:
+            continue            # its accepted language is DECIDED on this tree by gvc.lexers: no assumption left to back
         checked += 1
         cur = sorted(lexer_fingerprint(f) for f in by.get(n, []))
         if n not in base:
